@@ -102,6 +102,12 @@ type dialWorld struct {
 	// later request may be answered from the client's resolution cache
 	asked map[string]bool
 	lastDeleg string
+	// two names whose only SRV record names the same target and port: one
+	// destination, two TLS server names (a connection kept alive for one must
+	// not carry the other's request)
+	hosted     []string
+	conns      map[int]attempt // every connection made so far, by id
+	hostedTurn int
 	// reqTimeout is the client's overall request timeout. A request that runs
 	// into it ends the run: net/http then races its own cancellation against
 	// dials it has just started, which the simulator cannot order.
@@ -218,6 +224,25 @@ func bodyDial(r *sim.Run) {
 	for _, a := range addrPool {
 		w.n.setState(netip.MustParseAddr(a), t.Weighted([]int{7, 2, 1, 2}))
 	}
+	if t.Chance(150) {
+		i := t.Intn(len(dnsPool))
+		j := (i + 1 + t.Intn(len(dnsPool)-1)) % len(dnsPool)
+		port := uint16(sim.Pick(t, []int{8448, 443, 4242}))
+		for _, nme := range []string{dnsPool[i], dnsPool[j]} {
+			h := z.hosts[canon(nme)]
+			h.wk = wkCfg{mode: wkAbsent}
+			h.fed = srvCfg{kind: ref.SRVFound, recs: []ref.SRVRecord{{Target: "srv1.example", Port: port, Priority: 10}}}
+			w.hosted = append(w.hosted, nme)
+		}
+		for _, a := range z.hosts["srv1.example"].a {
+			w.n.setState(a, ipUp)
+		}
+		for _, a := range z.hosts["srv1.example"].aaaa {
+			w.n.setState(a, ipUp)
+		}
+		r.Probe("two_names_with_one_srv_target")
+		r.Logf("hosting: %s and %s both publish SRV srv1.example:%d", dnsPool[i], dnsPool[j], port)
+	}
 	w.allow, _ = withJunk(t, sim.Pick(t, allowSets))
 	var junk bool
 	w.deny, junk = withJunk(t, sim.Pick(t, denySets))
@@ -261,10 +286,10 @@ func bodyDial(r *sim.Run) {
 	opts := []fclient.ClientOption{fclient.WithWellKnownSRVLookups(true), fclient.WithSkipVerify(true), fclient.WithAllowDenyNetworks(w.allow, w.deny)}
 	keep := t.Bool()
 	if !fclient.VerifInternals {
-		// without the accessors the client's transports cannot be closed at
-		// teardown and its DNS cache cannot be given the simulated resolver:
-		// no keep-alives, no DNS cache; connections are told apart by address
-		keep = false
+		// without the accessors the client's DNS cache cannot be given the
+		// simulated resolver: no DNS cache; connections are told apart by
+		// address. Kept-alive connections end when the simulated network is
+		// torn down (every connection is closed from the server's side).
 		r.Probe("degraded_dial_workload_without_internals")
 	}
 	opts = append(opts, fclient.WithKeepAlives(keep))
@@ -351,6 +376,10 @@ func (w *dialWorld) pickTarget() string {
 	if w.lastDeleg != "" && t.Chance(300) {
 		w.r.Probe("request_for_a_name_another_name_delegates_to")
 		return w.lastDeleg
+	}
+	if len(w.hosted) == 2 && t.Chance(600) {
+		w.hostedTurn++
+		return w.hosted[w.hostedTurn%2]
 	}
 	switch t.Weighted([]int{8, 2, 2, 2, 1}) {
 	case 1:
@@ -550,6 +579,47 @@ func (w *dialWorld) opGet(name string) {
 	byConn := map[int][]served{}
 	for _, q := range reqs {
 		byConn[q.conn] = append(byConn[q.conn], q)
+	}
+	// A request may travel on a connection an earlier operation dialled and the
+	// client kept alive. It is judged like any other: the connection has to
+	// lead to a target of THIS request and carry that target's TLS name.
+	if w.conns == nil {
+		w.conns = map[int]attempt{}
+	}
+	dialledNow := map[int]bool{}
+	for _, a := range as {
+		if a.outcome == "connected" {
+			dialledNow[a.conn] = true
+			w.conns[a.conn] = a
+		}
+	}
+	if cur := w.ops[w.nop]; cur != nil && !cur.want.Unspecified && !cur.wantNoWK.Unspecified {
+		for _, q := range reqs {
+			a, known := w.conns[q.conn]
+			if dialledNow[q.conn] || !known || a.tag != "fed" || q.path == "/.well-known/matrix/server" {
+				continue
+			}
+			r.Probe("request_on_a_connection_kept_alive")
+			ok, reach := false, false
+			for _, tg := range cur.targets {
+				h, p := splitDest(tg.Destination)
+				if p != a.port || !w.hostAddrs(h)[a.ip] {
+					continue
+				}
+				reach = true
+				wantSNI := strings.TrimSuffix(tg.TLSName, ".")
+				if _, err := netip.ParseAddr(tg.TLSName); err == nil {
+					wantSNI = ""
+				}
+				if q.host == tg.Host && q.sni == wantSNI {
+					ok = true
+				}
+			}
+			if !reach {
+				r.Violate("C16", "target", cur.want.Step+":kept_alive", "request for %q travelled on a kept-alive connection to %s:%d; the specification's targets are %s", cur.name, a.ip, a.port, fmtTargets(cur.targets))
+			}
+			r.Check(ok, "C16", "target_headers", cur.want.Step+":kept_alive", "request for %q travelled on a kept-alive connection to %s:%d with Host %q, set up under TLS name %q; the specification prescribes %s", cur.name, a.ip, a.port, q.host, q.sni, fmtTargets(cur.targets))
+		}
 	}
 	for _, a := range as {
 		// judge every attempt against the request it was made for
